@@ -216,6 +216,37 @@ def anchor_part(ck):
             if why:
                 ck.report("anchor:" + hexs(t)[:40], "a node's recorded location %s" % why,
                           dict(invocation="assert_struct!(%s)" % t, node=int(nid), location=sp, own_tokens=extents.get(int(nid))))
+    # the same statement on the locations the real parser records when Span::join fails - the regime a stable compiler runs the macro
+    # in, i.e. what users see (set patterns anchor on `#` alone there, multi-token leaves on their first token)
+    import os as _os
+    envnj = dict(_os.environ)
+    envnj["VERIF_NOJOIN"] = "1"
+    impl_nj = ck.rt_batch(["run " + hexs(t) for t, _, _ in acc], binary="inproc", harness="inproc", env=envnj) if acc else []
+    nodes_nj = differ_nj = 0
+    for (t, o, d), onj, ex in zip(acc, impl_nj, exts):
+        g = ex.split("\t")
+        fn = onj.split("\t")
+        if g[0] != "ok" or fn[0] != "ok":
+            continue
+        extents = parse_extents(g[1] if len(g) > 1 else "")
+        starts = token_starts(d.split("\t")[0])
+        if fn[4] != o.split("\t")[4]:
+            differ_nj += 1
+        for loc in fn[4].split(" "):
+            if not loc:
+                continue
+            nid, sp = loc.split(":")
+            L = tuple(int(x) for x in sp.split("."))
+            if L == (0, 0, 0, 0):
+                continue
+            nodes_nj += 1
+            why = statement_fails(L, int(nid), extents, starts, in_process=False)
+            if why:
+                ck.report("anchor-nojoin:" + hexs(t)[:40], "with Span::join failing (as inside a stable compiler) a node's recorded location %s" % why,
+                          dict(invocation="assert_struct!(%s)" % t, node=int(nid), location=sp, own_tokens=extents.get(int(nid))))
+    ck.corr_record("T1 anchors with Span::join failing (the same statement on the locations recorded in the regime of a stable compiler)",
+                   nodes_nj, checked, 0, {"nodes": nodes_nj, "invocations_whose_locations_differ_from_the_joined_regime": differ_nj},
+                   samples=[dict(invocation=texts[-1][:200])], rule="the same inputs; vendored proc-macro2 with VERIF_NOJOIN")
     if walk_failed:
         ck.notes.append("extent walk did not complete on %d accepted inputs (machinery gap, those inputs are not covered by the statement-level check)" % walk_failed)
     ck.corr_record("T1 anchors (C04's statement on the real Pattern::location of every node of every accepted invocation: non-empty, inside the node's own tokens, starting on one of them, outside its children's tokens)",
